@@ -1,6 +1,8 @@
 import PyElf.Driver.Json
 import PyElf.Spec.DieTree
+import PyElf.Spec.DieSection
 import PyElf.Model.Die
+import PyElf.Model.DieSection
 import PyElf.Model.Env
 open Lean
 namespace PyElf.Driver.C04
@@ -99,41 +101,23 @@ def names : Names :=
 
 /-! ### the model on sections -/
 
-structure World where
-  le : Bool
-  dasz : Nat
-  info : Option Bytes
-  abbr : Option Bytes
-  types : Option Bytes
-  secs : Sections
+/-- the `DWARFInfo` the model runs on: the sections with the REGENERATED registry, struct bundles and
+    `DW_FORM_raw2name` (`Model.C04.DInfo`; Props/C04 `debug_info_exact` is about the same model functions) -/
+def mkWorld (le : Bool) (dasz : Nat) (info abbr types : Option Bytes) (secs : Sections) : DInfo :=
+  genDInfo le dasz info abbr types secs
+
+abbrev World := DInfo
 
 def refForms : List String := unitRefForms ++ ["DW_FORM_ref_addr", "DW_FORM_ref_sig8"]
-
-def mkCtx (w : World) (S0 : DwarfStructs) (data : Bytes) (cu : Lookup.CU) : R UnitCtx := do
-  let asz ← cu.header.getNat "address_size"
-  let ver ← cu.header.getNat "version"
-  let some S := Model.dwarfStructsFor ⟨w.le, cu.fmt, asz, ver⟩ | .error .assertion
-  let ao ← cu.header.getNat "debug_abbrev_offset"
-  let sz ← cu.size
-  return { S := S, env := Model.dwarfEnv S, data := data,
-           abbrevs := getAbbrevTable (Model.dwarfEnv S0) S0 w.abbr ao,
-           cuOffset := cu.cuOffset, cuDieOffset := cu.cuDieOffset, size := sz, fmt := cu.fmt, addrSize := asz,
-           secs := w.secs, raw2name := genRaw2name }
 
 def cuHdrJson (cu : Lookup.CU) : Json :=
   let sz : Json := match cu.size with | .ok n => jN n | .error e => Json.str e.name
   Json.arr #[jN cu.cuOffset, jN cu.cuDieOffset, sz, jN cu.fmt, cu.header.toJson]
 
-/-- units of a section with their contexts -/
+/-- units of a section with their contexts: `Model.C04.sectionUnits` (the glue `unitCtx` is modelled there) -/
 def unitsOf (w : World) (S0 : DwarfStructs) (sec : Option Bytes) (isTypes : Bool) :
     List (Lookup.CU × R UnitCtx) × Option Err :=
-  match sec with
-  | none => ([], none)
-  | some data =>
-    let P := if isTypes then parseTUAtOffset Model.genEnumDecode Model.dwarfStructsFor S0 w.le data
-             else Lookup.parseCUAtOffset Model.genEnumDecode Model.dwarfStructsFor S0 w.le data
-    let (cus, e) := unitsLoop P data.length (data.length + 1) 0 []
-    (cus.map fun cu => (cu, mkCtx w S0 data cu), e)
+  sectionUnits w S0 sec isTypes
 
 def refResJson (r : R (Nat × DieObs)) : Json :=
   match r with
@@ -162,36 +146,27 @@ structure QState where
   /-- a DIE below the unit's first-entry offset was fetched (see `fetch`) -/
   low : Bool := false
 
-/--
-  `_get_cached_DIE(offset)` inside its domain.  `get_top_DIE` returns `_dielist[0]` ("a top DIE always has
-  minimal offset"): once a DIE at an offset BELOW `cu_die_offset` has been cached (a DW_AT_sibling or a
-  type_offset pointing into or before the unit header — never in a well-formed unit) it takes the top DIE's
-  slot and every later parse resolves its index forms against that entry; DIEs cached earlier keep their
-  values.  What the unit answers from then on depends on the cache history, which the pure model
-  (`getCachedDIE`: values of (unit, offset)) does not carry — C10's subject.  Such a fetch is marked with an
-  error class nothing in the DIE model raises, the run stops there and the case is reported as `low_fetch`.
--/
-def fetch (U : UnitCtx) (offset : Nat) : R DieObs :=
-  if offset < U.cuDieOffset then .error .stopIteration else getCachedDIE U offset
-
 def isLow {α : Type} (r : R α) : Bool :=
   match r with
   | .error .stopIteration => true
   | _ => false
 
-/-- `get_DIE_by_sig8`: `Model.C04.dieBySig8` with the marked fetch -/
+/-- `get_DIE_by_sig8`: `Model.C04.dieBySig8` with the marked fetch on the scanned type units — `typeUnits` is
+    `sectionUnits w S0 w.types true`, so this is `Model.C04.sig8Lookup fetch w S0 sig` (Props/C04
+    `ref_sig8_debug_types`) without rescanning the section for every reference -/
 def sigRef (typeUnits : List (Lookup.CU × R UnitCtx) × Option Err) (sig : Int) : R (Nat × DieObs) :=
   dieBySig8 fetch typeUnits.1 typeUnits.2 sig
 
 /-- iterate one unit and run the queries of the canonical order -/
 def runUnit (w : World) (infoUnits typeUnits : List (Lookup.CU × R UnitCtx) × Option Err)
-    (cu : Lookup.CU) (rU : R UnitCtx) (st : QState) : Json × QState :=
+    (cu : Lookup.CU) (rU : R UnitCtx) (rDies : R (List (DieObs × Option Nat))) (st : QState) : Json × QState :=
   match rU with
   | .error e => (Json.mkObj [("hdr", cuHdrJson cu), ("dies", errJson e)], st)
   | .ok U =>
     let G := fetch U
-    let fuel := 2 * U.data.length + 8
-    match iterDIEs G U.cuOffset U.cuDieOffset fuel with
+    let fuel := unitFuel U
+    -- `rDies` is this unit's component of `Model.C04.iterSection fetch …`
+    match rDies with
     | .error e => (Json.mkObj [("hdr", cuHdrJson cu), ("dies", errJson e)], { st with low := st.low || e == .stopIteration })
     | .ok dies =>
       let childRes := dies.map fun (d, _) => childrenOf G U.cuOffset fuel d
@@ -223,11 +198,14 @@ def runWorld (w : World) : Except String Json := do
   let some S0 := Model.dwarfStructsFor ⟨w.le, 32, w.dasz, 2⟩ | throw "no default bundle"
   let infoUnits := unitsOf w S0 w.info false
   let typeUnits := unitsOf w S0 w.types true
-  let (ij, st) := infoUnits.1.foldl (fun (acc, st) (cu, rU) =>
-    let (j, st') := runUnit w infoUnits typeUnits cu rU st
+  -- `[(cu, list(cu.iter_DIEs())) for cu in iter_CUs()]`, resp. `iter_TUs()`: the function of `debug_info_exact`
+  let infoIter := iterSection fetch w S0 w.info false
+  let typeIter := iterSection fetch w S0 w.types true
+  let (ij, st) := (infoUnits.1.zip infoIter.1).foldl (fun (acc, st) ((cu, rU), (_, rDies)) =>
+    let (j, st') := runUnit w infoUnits typeUnits cu rU rDies st
     (acc ++ [j], st')) (([] : List Json), ({} : QState))
-  let (tj, st) := typeUnits.1.foldl (fun (acc, st) (cu, rU) =>
-    let (j, st') := runUnit w infoUnits typeUnits cu rU st
+  let (tj, st) := (typeUnits.1.zip typeIter.1).foldl (fun (acc, st) ((cu, rU), (_, rDies)) =>
+    let (j, st') := runUnit w infoUnits typeUnits cu rU rDies st
     (acc ++ [j], st')) (([] : List Json), st)
   let hook := (infoUnits.1 ++ typeUnits.1).any fun (_, rU) => match rU with | .ok U => topHookFails U | .error _ => false
   return Json.mkObj [("top_hook_fails", Json.bool hook), ("low_fetch", Json.bool st.low),
@@ -238,18 +216,14 @@ def runWorld (w : World) : Except String Json := do
 
 def cfgOf (le : Bool) (u : UnitReq) : DwarfCfg := ⟨le, if u.fmt64 then 64 else 32, u.asz, u.version⟩
 
-/-- offsets of the abbreviation tables in `.debug_abbrev` -/
-def tableOffsets : Nat → List (List AbbrevDecl × Nat) → List Nat
-  | _, [] => []
-  | off, (ds, el) :: rest => off :: tableOffsets (off + (encAbbrevs ds el).length) rest
+def descOf (u : UnitReq) : UnitDesc :=
+  { fmt64 := u.fmt64, version := u.version, utype := u.utype, asz := u.asz, id8 := u.id8, typeOff := u.typeOff,
+    table := u.table, tree := u.tree }
 
-def infoUnitOf (le : Bool) (offs : List Nat) (u : UnitReq) : InfoUnit :=
-  { fmt64 := u.fmt64, version := u.version, utype := u.utype, abbrevOff := offs[u.table]?.getD 0, asz := u.asz,
-    id8 := u.id8, typeOff := u.typeOff, body := encTree (cfgOf le u) u.tree }
-
-def tuHeaderOf (offs : List Nat) (u : UnitReq) : TUHeader :=
-  { fmt64 := u.fmt64, version := u.version, abbrevOff := offs[u.table]?.getD 0, asz := u.asz,
-    signature := u.id8, typeOff := u.typeOff }
+/-- the forest description of a request (Spec/DieSection): the sections are ITS encodings, the expectation is
+    built on ITS placement, `wf` is ITS well-formedness — the objects of Props/C04 `debug_info_exact` -/
+def forestOf (le : Bool) (tables : List TableDesc) (units tus : List UnitReq) (secs : Sections) : Forest :=
+  { le := le, tables := tables, units := units.map descOf, tus := tus.map descOf, secs := secs }
 
 structure Placed where
   u : UnitReq
@@ -262,45 +236,36 @@ structure Placed where
   flat : List DieObs   -- what iterating must yield
   ok : Bool            -- every value resolves
 
-def placeUnits (le : Bool) (offs : List Nat) (secs : Sections) (isTypes : Bool) : Nat → List UnitReq → List Placed
-  | _, [] => []
-  | off, u :: rest =>
-    let cfg := cfgOf le u
-    let body := encTree cfg u.tree
-    let (enc, dieOff, hdr) :=
-      if isTypes then
-        let h := tuHeaderOf offs u
-        (encTU le h body, off + h.ilSize + (tuHdrRest le h).length, tuHdrVal le h body)
-      else
-        let iu := infoUnitOf le offs u
-        (Spec.Lookup.encUnit le iu, off + iu.ilSize + (Spec.Lookup.unitHdrRest le iu).length, Spec.Lookup.unitHdrVal le iu)
-    let bases := basesOf u.tree.root
-    let ρ? := resolve cfg secs bases
-    let ρ := fun f r => (ρ? f r).getD .none
-    let flat := flattenUnit names cfg ρ ρ dieOff u.tree
-    let ok := flat.all fun d => d.attrs.all fun a => (ρ? a.form a.raw).isSome
-    ⟨u, cfg, off, dieOff, enc.length, hdr, isTypes, flat, ok⟩ :: placeUnits le offs secs isTypes (off + enc.length) rest
-
-def encPlaced (le : Bool) (offs : List Nat) (isTypes : Bool) (us : List UnitReq) : Bytes :=
-  us.flatMap fun u =>
-    let body := encTree (cfgOf le u) u.tree
-    if isTypes then encTU le (tuHeaderOf offs u) body else Spec.Lookup.encUnit le (infoUnitOf le offs u)
+def placeUnits (F : Forest) (isTypes : Bool) (us : List UnitReq) : List Placed :=
+  let placed := if isTypes then placeTypes F 0 F.tus else placeInfo F 0 F.units
+  (placed.zip us).map fun ((off, d), u) =>
+    let cfg := d.cfg F.le
+    let (size, dieOff, hdr) :=
+      if isTypes then ((encTUOf F d).length, typesDieOff F off d, tuHdrVal F.le (tuHeaderOf F d) (encTree cfg d.tree))
+      else (Spec.Lookup.unitSize F.le (infoUnitOf F d), infoDieOff F off d, Spec.Lookup.unitHdrVal F.le (infoUnitOf F d))
+    let bases := basesOf d.tree.root
+    let ρ := resolveD cfg F.secs bases
+    let flat := flattenUnit names cfg ρ ρ dieOff d.tree
+    let ok := flat.all fun x => x.attrs.all fun a => (resolve cfg F.secs bases a.form a.raw).isSome
+    ⟨u, cfg, off, dieOff, size, hdr, isTypes, flat, ok⟩
 
 def distinctNames (d : AbbrevDecl) : Bool := decide ((d.specs.map (·.name)).Nodup)
 
 partial def declsOk : Tree → Bool
   | .mk n kids _ => distinctNames n.decl && kids.all declsOk
 
-def wfParts (le : Bool) (p : Placed) (abbrevLen : Nat) (offs : List Nat) : List Bool :=
+/-- the parts of well-formedness per unit, for the distribution counters (the verdict is `wfForestB`) -/
+def wfParts (F : Forest) (p : Placed) (abbrevLen : Nat) : List Bool :=
+  let d := descOf p.u
   let hdrOk :=
-    if p.isTypes then wfTU le (tuHeaderOf offs p.u) (encTree p.cfg p.u.tree)
-    else Spec.Lookup.wfUnit le (infoUnitOf le offs p.u)
+    if p.isTypes then wfTU F.le (tuHeaderOf F d) (encTree p.cfg p.u.tree)
+    else Spec.Lookup.wfUnit F.le (infoUnitOf F d)
   [hdrOk, p.u.known, wfTree p.cfg p.u.tree, declsOk p.u.tree, p.ok,
-   decide ((offs[p.u.table]?.getD abbrevLen) < abbrevLen),
+   decide (p.u.table < F.tables.length ∧ tableOff F.tables p.u.table < abbrevLen),
    sibsOk names p.cfg (fun _ r => r) p.off p.dieOff p.u.tree]
 
-def wfPlaced (le : Bool) (p : Placed) (abbrevLen : Nat) (offs : List Nat) : Bool :=
-  (wfParts le p abbrevLen offs).all id
+def wfPlaced (F : Forest) (p : Placed) (abbrevLen : Nat) : Bool :=
+  (wfParts F p abbrevLen).all id
 
 /-- a DWARF 5 type unit placed in `.debug_info` (DW_UT_type = 2, DW_UT_split_type = 6) -/
 def isTypeUnit5 (q : Placed) : Bool := !q.isTypes && q.u.version == 5 && (q.u.utype == 2 || q.u.utype == 6)
@@ -356,25 +321,30 @@ def handle (req : Json) : Except String Json := do
   | "ast" =>
     let tables ← (← jArr req "abbrevs").mapM fun t => do
       let ds ← (← jArr t "decls").mapM parseDecl
-      return (ds, jNatD t "end_len" 1)
-    let abbrevB := tables.flatMap fun (ds, el) => encAbbrevs ds el
-    let offs := tableOffsets 0 tables
+      return ({ gap := (jHexOpt t "gap").getD [], decls := ds, endLen := jNatD t "end_len" 1 } : TableDesc)
     let secs := parseSecs ((req.getObjVal? "secs").toOption.getD (Json.mkObj []))
-    let units ← (← jArr req "units").mapM (parseUnitReq tables)
-    let tus ← ((jArr req "tus").toOption.getD []).mapM (parseUnitReq tables)
-    let info := encPlaced le offs false units
-    let types := encPlaced le offs true tus
-    let infoP := placeUnits le offs secs false 0 units
-    let typeP := placeUnits le offs secs true 0 tus
-    let wfTables := tables.all fun (ds, el) => wfAbbrevs ds el
-    let wf := wfTables && (infoP ++ typeP).all fun p => wfPlaced le p abbrevB.length offs
-    let w : World := { le := le, dasz := dasz, info := some info, abbr := some abbrevB,
-                       types := if tus.isEmpty && !((jBool req "types_present").toOption.getD false) then none else some types,
-                       secs := secs }
+    let tbls := tables.map fun t => (t.decls, t.endLen)
+    let units ← (← jArr req "units").mapM (parseUnitReq tbls)
+    let tus ← ((jArr req "tus").toOption.getD []).mapM (parseUnitReq tbls)
+    let F := forestOf le tables units tus secs
+    let abbrevB := encTables F.tables
+    let info := infoSec F
+    let types := typesSec F
+    let infoP := placeUnits F false units
+    let typeP := placeUnits F true tus
+    let wfTables := tables.all fun t => wfAbbrevs t.decls t.endLen
+    -- the hypothesis of `debug_info_exact` / `debug_types_exact`
+    let wf := wfForestB names F
+    -- the same, part by part, as computed before the forest description existed (must agree)
+    let wfOld := wfTables && (infoP ++ typeP).all fun p => wfPlaced F p abbrevB.length
+    let w : World := mkWorld le dasz (some info) (some abbrevB)
+                       (if tus.isEmpty && !((jBool req "types_present").toOption.getD false) then none else some types) secs
     let model ← runWorld w
     return Json.mkObj [
       ("info", jHexOf info), ("abbrev", jHexOf abbrevB), ("types", jHexOf types), ("wf", Json.bool wf),
-      ("wf_parts", Json.arr ((infoP ++ typeP).map fun p => Json.arr ((wfParts le p abbrevB.length offs).map Json.bool).toArray).toArray),
+      ("wf_old", Json.bool wfOld),
+      ("table_offs", Json.arr ((List.range tables.length).map fun i => jN (tableOff tables i)).toArray),
+      ("wf_parts", Json.arr ((infoP ++ typeP).map fun p => Json.arr ((wfParts F p abbrevB.length).map Json.bool).toArray).toArray),
       ("wf_tables", Json.bool wfTables),
       ("unresolved", Json.arr ((infoP ++ typeP).map fun p =>
         let bases := basesOf p.u.tree.root
@@ -390,8 +360,7 @@ def handle (req : Json) : Except String Json := do
       ("model", model)]
   | "raw" =>
     let secs := parseSecs ((req.getObjVal? "secs").toOption.getD (Json.mkObj []))
-    let w : World := { le := le, dasz := dasz, info := jHexOpt req "info", abbr := jHexOpt req "abbrev",
-                       types := jHexOpt req "types", secs := secs }
+    let w : World := mkWorld le dasz (jHexOpt req "info") (jHexOpt req "abbrev") (jHexOpt req "types") secs
     return Json.mkObj [("model", ← runWorld w)]
   | _ => throw s!"C04: unknown kind {k}"
 
